@@ -78,7 +78,7 @@ class BaseSpec:
     def loop(self, relpath, qual, ordinal, spec):
         self.loops[(relpath, qual, ordinal)] = spec
 
-    def oblige(self, I, name, goal, meta=None):
+    def oblige(self, I, name, goal, meta=None, hints=None):
         full = f"{self.cur_fn}/{name}" if self.cur_fn else name
         st = I.st
         core_pc = list(st.pc) + st.frame_facts()
@@ -90,6 +90,7 @@ class BaseSpec:
         self._seen.add(key)
         ob = Obligation(full, pc, goal, meta)
         ob.n_core = len(core_pc)
+        ob.hints = hints
         self.obligations.append(ob)
 
     # ---- hooks (defaults refuse) -----------------------------------------------------------------
@@ -303,6 +304,14 @@ def run_function(spec, label, body, max_paths=5000):
             pass
         except OutsideSubset as e:
             # the construct is outside the subset on THIS path only: the path is undecided, the others are still explored
+            # (a path whose condition has meanwhile become contradictory is dead: dispatch on a dead path cannot
+            # determine tags, which is the usual reason for landing here)
+            try:
+                dead = not st.feasible(z3.BoolVal(True))
+            except Exception:
+                dead = False
+            if dead:
+                return
             if os.environ.get("PYVC_DEBUG"):
                 traceback.print_exc()
             msg = f"OUTSIDE-SUBSET: {e}"
@@ -343,7 +352,14 @@ def discharge(ob, timeout_ms=10000, want_model=True):
     n_core = getattr(ob, "n_core", len(ob.pc))
     core_pc, axioms = ob.pc[:n_core], ob.pc[n_core:]
     ground_ax = [a for a in axioms if not state.has_quantifier(a)]
-    for stage, hyps in (("qf", [p for p in core_pc if not state.has_quantifier(p)] + ground_ax), ("no-heap-axioms", core_pc + ground_ax)):
+    qf_hyps = [p for p in core_pc if not state.has_quantifier(p)] + ground_ax
+    stages = [("qf", qf_hyps)]
+    hints = getattr(ob, "hints", None)
+    if hints:
+        # instances of the universally quantified hypotheses at terms the obligation names (consequences of the hypotheses)
+        stages.append(("qf+instances-at-hints", qf_hyps + _instances(core_pc, hints)))
+    stages.append(("no-heap-axioms", core_pc + ground_ax))
+    for stage, hyps in stages:
         s0 = z3.Solver()
         s0.set("timeout", min(timeout_ms, 4000))
         for p in hyps:
@@ -391,6 +407,29 @@ def discharge(ob, timeout_ms=10000, want_model=True):
                 ob.note = f"z3: {s.reason_unknown()}; cvc5: {res}"
         ob.seconds = time.time() - t
     return ob
+
+
+def _instances(hyps, hints):
+    out = []
+    for p in hyps:
+        for guard, q in _univ(p):
+            if q.num_vars() != 1:
+                continue
+            for t_ in hints:
+                if q.var_sort(0) == t_.sort():
+                    inst = z3.substitute_vars(q.body(), t_)
+                    out.append(inst if guard is None else z3.Implies(guard, inst))
+    return out
+
+
+def _univ(p):
+    """(guard, forall) pairs for hypotheses of the shapes  forall x. B  and  G ==> forall x. B"""
+    if z3.is_quantifier(p) and p.is_forall():
+        return [(None, p)]
+    if z3.is_app(p) and p.decl().kind() == z3.Z3_OP_IMPLIES and z3.is_quantifier(p.arg(1)) and p.arg(1).is_forall() \
+            and not state.has_quantifier(p.arg(0)):
+        return [(p.arg(0), p.arg(1))]
+    return []
 
 
 def _cvc5(solver, timeout_s=20):
@@ -457,14 +496,60 @@ def _worker(args):
             "queries": state.STATS.queries, "solver_s": state.STATS.seconds, "wall": time.time() - t0}
 
 
+def _shard_worker(idx, timeout_ms, shard, out):
+    state.SHARD = shard
+    try:
+        r = _worker((idx, timeout_ms))
+    except BaseException:
+        r = {"obligations": [], "undecided": [], "paths": 0, "functions": {}, "used_contracts": set(), "assumptions": set(),
+             "error": traceback.format_exc(), "queries": 0, "solver_s": 0.0, "wall": 0.0}
+    out.put(r)
+
+
+def _run_sharded(ctx, idx, timeout_ms, nshards):
+    """one harness (a task that calls run_function exactly once) explored by `nshards` forked workers sharing the stack of
+    pending decision prefixes; each worker discharges the obligations of the paths it explored"""
+    q, outstanding, out = ctx.Queue(), ctx.Value("i", 1), ctx.Queue()
+    q.put([])
+    procs = [ctx.Process(target=_shard_worker, args=(idx, timeout_ms, (q, outstanding), out)) for _ in range(nshards)]
+    for p in procs:
+        p.start()
+    results = []
+    import queue as _q
+    while len(results) < nshards:
+        try:
+            results.append(out.get(timeout=5))
+        except _q.Empty:
+            if not any(p.is_alive() for p in procs) and out.empty():
+                break
+    for p in procs:
+        p.join(timeout=10)
+        if p.is_alive():
+            p.terminate()
+    if len(results) < nshards:
+        results.append({"obligations": [], "undecided": [], "paths": 0, "functions": {}, "used_contracts": set(), "assumptions": set(),
+                        "error": f"{nshards - len(results)} shard worker(s) died without a result", "queries": 0, "solver_s": 0.0, "wall": 0.0})
+    # the same (label, message) may be recorded by several workers
+    seen = set()
+    for r in results:
+        r["undecided"] = [u for u in r["undecided"] if not (u in seen or seen.add(u))]
+    return results
+
+
 def run_parallel(spec, factory, tasks, nproc=None, timeout_ms=10000):
-    """tasks: list of callables task(spec).  Results are merged into `spec` (records instead of z3 obligations)."""
+    """tasks: list of callables task(spec).  Results are merged into `spec` (records instead of z3 obligations).
+    A task with attribute `shards = N` (it must call run_function exactly once) is explored by N workers."""
     import multiprocessing as mp
-    nproc = nproc or min(16, max(1, len(tasks)))
     ctx = mp.get_context("fork")
     _TASKS["factory"], _TASKS["tasks"] = factory, list(tasks)   # inherited by the forked workers
-    with ctx.Pool(nproc) as pool:
-        results = pool.map(_worker, [(i, timeout_ms) for i in range(len(tasks))], chunksize=1)
+    plain = [i for i, t in enumerate(tasks) if not getattr(t, "shards", 0)]
+    results = []
+    if plain:
+        with ctx.Pool(nproc or min(16, max(1, len(plain)))) as pool:
+            results += pool.map(_worker, [(i, timeout_ms) for i in plain], chunksize=1)
+    for i, t in enumerate(tasks):
+        if getattr(t, "shards", 0):
+            results += _run_sharded(ctx, i, timeout_ms, t.shards)
     faults = []
     for r in results:
         spec.obligations.extend(r["obligations"])
